@@ -69,6 +69,8 @@ def const_values(slot, bl, rnd):
         return [-1, -2, -bl]
     if slot == "Z":
         return [0]
+    if slot == "e":
+        return [0, 1, 2, 3, 500, 501]      # large public exponents (the integer-power gadget recurses once per unit)
     return opcases.const_values(slot, bl, 0, rnd)
 
 
